@@ -611,6 +611,8 @@ static void thr_case(void) {
         mon_flag(F_CROSS_THREAD_RELEASE);
     }
     mon_fp(perturb_signature());
+    mon_distinct("interleaving_signatures", perturb_signature());
+
     mon_count("thr_scenarios", 1);
     mon_count("thr_operations", (uint64_t)W.n * ops);
     mon_count("thr_blocks_released_by_another_thread", handed);
